@@ -25,6 +25,7 @@ struct CsState {
     in_flight: bool,
 }
 
+#[derive(Clone)]
 pub struct RefDecoder {
     pub cs: usize,
     streams: HashMap<u32, CsState>,
@@ -32,6 +33,7 @@ pub struct RefDecoder {
     pub notes: Vec<String>,        // conformance complaints (strict mode)
     pub sequential_only: bool,     // complain if chunks of another csid arrive mid-message
     current: Option<u32>,
+    pub hdr_bytes: Vec<u8>,        // header bytes of the chunks read since the caller last cleared it
 }
 
 pub enum Res {
@@ -41,7 +43,7 @@ pub enum Res {
 
 impl RefDecoder {
     pub fn new(strict: bool) -> Self {
-        RefDecoder { cs: 128, streams: HashMap::new(), strict, notes: vec![], sequential_only: false, current: None }
+        RefDecoder { cs: 128, streams: HashMap::new(), strict, notes: vec![], sequential_only: false, current: None, hdr_bytes: vec![] }
     }
 
     /// decode a complete byte string; returns messages in completion order
@@ -115,6 +117,7 @@ impl RefDecoder {
         if (len as usize) < have_bytes { return Err(Res::Err("declared length below bytes already received".into())); }
         let want = std::cmp::min(self.cs, len as usize - have_bytes);
         need(p, want)?;
+        self.hdr_bytes.extend_from_slice(&bs[start..p]);
         st.buf.extend_from_slice(&bs[p..p + want]);
         p += want;
         st.ts = ts; st.delta = delta; st.field24 = field24; st.len = len; st.typ = typ; st.msid = msid; st.have = true;
